@@ -49,6 +49,18 @@ def main():
             rep = rep2
         else:
             mirsym.AUTO_INLINE = False
+    if rep.inconclusive and not rep.violations and hasattr(mod, "fallback") and os.environ.get("VERIF_NO_FALLBACK") != "1":
+        # A kernel could not be built or a solver model found no matching scenario (typically after a restructuring of the code the
+        # kernel is shaped after). The undecided obligations stay undecided; in addition EVERY scenario of the property's replay
+        # battery is run against the native build of this tree, and a scenario whose concrete oracle fails is reported (it is a
+        # reproduced violation of the property, whatever the kernels could say). Nothing is reported without a failing run.
+        try:
+            mod.fallback(rep)
+        except Inconclusive as e:
+            rep.add("fallback", "inconclusive", str(e)[:500], nontrivial=False)
+        except Exception as e:
+            traceback.print_exc()
+            rep.add("fallback", "inconclusive", f"internal error: {type(e).__name__}: {e}"[:500], nontrivial=False)
     sys.exit(rep.finish())
 
 
